@@ -10,9 +10,20 @@ Attribute values cross the protocol as canonical JSON text.
 import json
 
 
-def cv(v):
-    """canonical JSON text of an attribute value (tuples become lists)"""
-    return json.dumps(v, sort_keys=True, default=_default)
+def _mark_tuples(v):
+    if isinstance(v, tuple):
+        return {'__tuple__': [_mark_tuples(x) for x in v]}
+    if isinstance(v, list):
+        return [_mark_tuples(x) for x in v]
+    if isinstance(v, dict):
+        return dict((k, _mark_tuples(x)) for k, x in v.items())
+    return v
+
+
+def cv(v, tuples=False):
+    """canonical JSON text of an attribute value.  With `tuples`, a tuple is written differently from a list (the
+    real comparison of constraint / index attributes tells them apart); otherwise tuples become lists."""
+    return json.dumps(_mark_tuples(v) if tuples else v, sort_keys=True, default=_default)
 
 
 def _default(o):
@@ -53,7 +64,7 @@ def abs_index(index_sig):
 
 
 def abs_constraint(constraint_sig):
-    return cv(constraint_sig.serialize())
+    return cv(constraint_sig.serialize(), tuples=True)
 
 
 def abs_model(ms):
